@@ -98,4 +98,12 @@ META = {
         "technique": "Coq proof (support induction, exact masses) + whole-call raw-tape replay + legality oracle after every call",
         "design_ref": "DESIGN.md §3 C07",
     },
+    "C11": {
+        "text": "Coq theorems about the scan-based specification (unbounded strings): occupied positions are exactly the slots holding an operator, in time order; n is their number; first/last are the extremes; per-bond counts add up to n; "
+                "'variable has operators' holds iff some stored operator acts on it. The implementation's private linked structure (every previous/next link, global and per variable, n, p_ends, var_ends, bond counters) is read through serde after EVERY mutation "
+                "of long random mutation sequences (mutate_ps, sub-ranges, mutate_ops, sub-variable cursors, threaded mutate_p cursors, set_cutoff, new_from_ops, and the real samplers' histories) and compared in Coq with that specification; getters are compared with scans as well.",
+        "note": "Trusted: Coq kernel + vm_compute; serde view of the container. Partial: the refinement of mutate_p to the specification is established differentially after every mutation, not by a Coq proof over all mutation sequences.",
+        "technique": "Coq proof of the navigation specification + per-mutation differential check of every link field against it",
+        "design_ref": "DESIGN.md §3 C11",
+    },
 }
